@@ -9,7 +9,7 @@ ROOT = os.path.dirname(os.path.dirname(os.path.abspath(__file__)))
 CHECKS = {
     "C06": ("§6 C06",
             "Lean 4 theorems over a hand-written model of Standardiser (exact extended rationals) + differential correspondence with the Python class + independent property oracle",
-            "Every clause of C06 is a Lean theorem about Model/Standardiser.lean, for all accepted parameters, supplies, finite demands and op histories; the model is tied to standardiser.py on every run by executing generated and grid op programs on both and comparing every observation exactly.",
+            "Every clause of C06 is a Lean theorem about Model/Standardiser.lean, for all accepted parameters, supplies (the [minimum, maximum] clause also for infinite supplies, where inf - inf is a bound that never applies), finite demands and op histories; the model is tied to standardiser.py on every run by executing generated and grid op programs on both and comparing every observation exactly.",
             "Trusted: Lean kernel + {propext, Classical.choice, Quot.sound}; the model (tied by sampling correspondence only); CPython arithmetic on int/Fraction/dyadic floats; IEEE rounding not modelled."),
     "C07": ("§6 C07",
             "Lean 4 theorems over a hand-written model of Uniform/WeightedComposite (exact rationals, arbitrary child lists) + differential correspondence + independent oracle (exact and float-tolerance streams)",
@@ -49,19 +49,19 @@ CHECKS = {
             "Trusted: Lean kernel + standard axioms; model (sampling correspondence); logging module (one record per log call); CPython % formatting (modelled subset, compared)."),
     "C18": ("§6 C18",
             "constructor tables regenerated from the live loader class into Lean on every run and table_safe re-proved by kernel computation (decide +kernel); Lean induction over document trees for the dispatch model; canary documents loaded in a child process as correspondence and failing-input search",
-            "For the regenerated table of the loader class that core.config.load really uses: no python/* tag registered, no prefix constructors, unknown tags fall to construct_undefined, every entry a SafeConstructor method of a standard tag or a plugin constructor of the entry-point group; hence (theorems, any document depth) a python/* or unregistered tag anywhere makes loading fail and only registered constructors ever run. Tied to the code by regeneration (translator from the live class) plus documents with side-effect canaries.",
+            "For the regenerated table of the loader class that core.config.load really uses: no python/* tag registered, no prefix constructors, unknown tags fall to construct_undefined, every entry a SafeConstructor method of a standard tag or a plugin constructor of the entry-point group; hence (theorems, any document depth) a python/* or unregistered tag anywhere makes loading fail and only registered constructors ever run. Tied to the code by regeneration (translator from the live class) plus documents with side-effect canaries, loaded once more in a child process where PyYAML's C extension is unavailable (the loader tables must be the same there).",
             "Trusted: Lean kernel + standard axioms; harness/vh/tables.py (introspection translator); PyYAML scanner/parser/composer and the modelled construct_object dispatch order; canaries."),
     "C09": ("§6 C09",
             "Lean 4 theorems about the act/sleep loops on a virtual clock (wake times, count per span, LinearController drift bound from the C08 step bound, Buffer quiet/flush) + differential correspondence of every shipped service under trio's MockClock with the observed event order passed to the model + oracle on the recorded timeline",
-            "Partial: the trio clock contract (a sleep of d ends d later, bodies take no virtual time) is an assumption. Under it: first step immediately then exactly one per interval forever (FactoryPool: after each interval), demand drift of a LinearController <= rate x (span + interval), a Buffer forwards nothing between boundaries and at each boundary the target gets the last written value — Lean theorems; tied to the run() methods of linear/relative_supply/stepwise/switch/buffer/factory by MockClock runs whose event timelines (times as exact rationals) are compared with the model.",
+            "Partial: the trio clock contract (a sleep of d ends d later, bodies take no virtual time) is an assumption. Under it: first step immediately then exactly one per interval forever (FactoryPool: after each interval), demand drift of a LinearController <= rate x (span + interval), a Buffer forwards nothing between boundaries and at each boundary the target gets the last written value — Lean theorems; tied to the run() methods of linear/relative_supply/stepwise/switch/buffer/factory by MockClock runs whose event timelines (times as exact rationals) are compared with the model; one further stream (FactoryPool under a scripted environment, state sampled after every boundary) is judged by the oracle only.",
             "Trusted: Lean kernel + standard axioms; model; trio 0.34 MockClock semantics (assumed); real-time scheduling latency is not modelled."),
     "C01": ("§7.3",
             'Lean 4 invariant proofs over one labelled transition system of the MetaRunner/ServiceRunner protocol (induction over arbitrary event sequences: every number of payloads, every interleaving the guards admit) + correspondence by replaying the event logs of gated scenarios run against the real runtime on the model (subset-construction trace acceptor) + outcome oracle',
-            'failure_never_returns, cause_sound, graceful_only, latch_first_wins, quiet_records are theorems over every reachable state of the runtime LTS; the LTS is tied to daemon/runners/*.py on every run by executing generated failure scenarios (flavour x failure kind x registration x bystanders x simultaneous failures) in worker processes and checking that the model accepts the logged traces and that the outcome is the one the property demands.',
+            'failure_never_returns, cause_sound, graceful_only, latch_first_wins, quiet_records are theorems over every reachable state of the runtime LTS, and failure_ends_run / no_stall / failure_delivered prove progress: once a failure has been delivered and the coroutine payloads have unwound, at most 8 closing steps - always enabled, each decreasing a measure - end the run call by raising, whatever thread payloads do; the LTS is tied to daemon/runners/*.py on every run by executing generated failure scenarios (flavour x failure kind x registration x bystanders x simultaneous failures) in worker processes and checking that the model accepts the logged traces and that the outcome is the one the property demands.',
             'Partial: the semantics of asyncio, trio and threading enters the LTS as the enabling conditions of its events (assumed, DESIGN §7.1); real thread interleavings inside the frameworks and wall-clock bounds are sampled by the scenario engine, not proved. Trusted: Lean kernel + standard axioms; the LTS Model/Runtime/LTS.lean (tied by trace acceptance); the scenario engine and its mapping of log entries to model events.'),
     "C02": ("§7.4",
             'Lean 4 invariant proofs over one labelled transition system of the MetaRunner/ServiceRunner protocol (induction over arbitrary event sequences: every number of payloads, every interleaving the guards admit) + correspondence by replaying the event logs of gated scenarios run against the real runtime on the model (subset-construction trace acceptor) + outcome oracle',
-            'ended_all_unwound, no_step_after_end, cancel_through_framework, threads_dont_block, closing_uniform are theorems over the runtime LTS; tied to the code by termination scenarios (failure / SIGINT / shutdown from outside and from a thread payload, coroutine payloads with synchronous and shielded cleanup, blocked threads) whose per-payload event logs are replayed on the model and compared with the instant accept() ended.',
+            'ended_all_unwound, no_step_after_end, cancel_through_framework, threads_dont_block, closing_uniform, coQuiet_ignores_threads, termination_despite_threads, cancellation_deliverable are theorems over the runtime LTS; tied to the code by termination scenarios (failure / SIGINT / shutdown from outside and from a thread payload, coroutine payloads with synchronous and shielded cleanup, blocked threads) whose per-payload event logs are replayed on the model and compared with the instant accept() ended.',
             'Partial: the semantics of asyncio, trio and threading enters the LTS as the enabling conditions of its events (assumed, DESIGN §7.1); real thread interleavings inside the frameworks and wall-clock bounds are sampled by the scenario engine, not proved. Trusted: Lean kernel + standard axioms; the LTS Model/Runtime/LTS.lean (tied by trace acceptance); the scenario engine and its mapping of log entries to model events.'),
     "C03": ("§7.5",
             'Lean 4 invariant proofs over one labelled transition system of the MetaRunner/ServiceRunner protocol (induction over arbitrary event sequences: every number of payloads, every interleaving the guards admit) + correspondence by replaying the event logs of gated scenarios run against the real runtime on the model (subset-construction trace acceptor) + outcome oracle',
@@ -77,7 +77,7 @@ CHECKS = {
             'Partial: the semantics of asyncio, trio and threading enters the LTS as the enabling conditions of its events (assumed, DESIGN §7.1); real thread interleavings inside the frameworks and wall-clock bounds are sampled by the scenario engine, not proved. Trusted: Lean kernel + standard axioms; the LTS Model/Runtime/LTS.lean (tied by trace acceptance); the scenario engine and its mapping of log entries to model events.'),
     "C12": ("§7.8",
             'Lean 4 invariant proofs over one labelled transition system of the MetaRunner/ServiceRunner protocol (induction over arbitrary event sequences: every number of payloads, every interleaving the guards admit) + correspondence by replaying the event logs of gated scenarios run against the real runtime on the model (subset-construction trace acceptor) + outcome oracle',
-            'guard_mutex, reject_frame, guard_released, restart, shutdown_enabled, shutdown_returns are theorems over the runtime LTS; tied to the code by histories over several ServiceRunner instances (accept, concurrent accept, shutdown from outside or from a thread payload, SIGINT, failing payload, accept again).',
+            'guard_mutex, reject_frame, guard_released, restart, shutdown_enabled, shutdown_returns, shutdown_completes (a stop request ends the run call within 8 closing steps, by a normal return when no failure was recorded), interrupt_completes, shutdown_idle are theorems over the runtime LTS; tied to the code by histories over several ServiceRunner instances (accept, concurrent accept - also on the active instance while a shutdown is pending -, shutdown from outside or from a thread payload, shutdown again after the end, SIGINT, failing payload, accept again).',
             'Partial: the semantics of asyncio, trio and threading enters the LTS as the enabling conditions of its events (assumed, DESIGN §7.1); real thread interleavings inside the frameworks and wall-clock bounds are sampled by the scenario engine, not proved. Trusted: Lean kernel + standard axioms; the LTS Model/Runtime/LTS.lean (tied by trace acceptance); the scenario engine and its mapping of log entries to model events.'),
     "C13": ("§7.9",
             "Lean 4 corollaries of the runtime-LTS theorems for the daemon's instantiation (loader = queued asyncio payload) + totality of the loader dispatch + correspondence with real `python -m cobald.daemon` child processes whose event files are replayed on the LTS + outcome oracle",
